@@ -108,6 +108,8 @@
    (op) == SPOP_DIFFERENCE ? SP_ABS ((as) * (d) - (ad) * (s)) : \
    /* EXCLUSION */ (s) * (ad) + (d) * (as) - 2 * (d) * (s))
 #define SP_CLAMP2(t) ((t) < 0 ? 0 : (t) > 65025 ? 65025 : (t))
+/* round-half-up(t/255) for 0 <= t <= 255*255 (lemma) */
+#define SP_RND255(t) ((((t) + 128) * 257) >> 16)
 #define SP_PDF_T(op, s1, sa1, dc, da) \
   SP_CLAMP2 ((255 - SP_I (sa1)) * SP_I (dc) + (255 - SP_I (da)) * SP_I (s1) + SP_BLEND (op, SP_I (dc), SP_I (da), SP_I (s1), SP_I (sa1)))
 #define SP_PDF_TA(sa1, da) SP_CLAMP2 (255 * SP_I (da) + 255 * SP_I (sa1) - SP_I (sa1) * SP_I (da))
